@@ -1742,6 +1742,13 @@ func (g *tkGen) deploy(hostile bool) (rig.Tx, bool) {
 		// a denom with an ICS20 trace and no token record yet: the deployment creates the record
 		msg.Symbol, msg.Name, msg.Scale, msg.MinUnit = "ibcverif", "ibc voucher", 6, tkIBCDenom
 		tag.Var = "ics20-denom"
+	} else if g.evm != nil && t != nil && rng.Intn(8) == 0 {
+		// a denom with an ICS20 trace and no token record, deployed under a symbol that already names another token
+		g.serial++
+		msg.Symbol, msg.Name, msg.Scale, msg.MinUnit = t.Symbol, "ibc voucher under a taken symbol", uint32(rng.Intn(19)), fmt.Sprintf("ibc/VERIFTAKEN%d", g.serial)
+		tag.Sym = t.Symbol
+		tag.Var = "ics20-denom-under-a-taken-symbol"
+		g.run.Count("deploy-for-ics20-denom-under-a-taken-symbol", 1)
 	} else {
 		if t == nil {
 			return rig.Tx{}, false
@@ -2638,6 +2645,21 @@ func (d *tkC10) accepted(br *rig.BlockRecord, tx *rig.TxRecord, tag *tkTag, pre,
 					if o := &post.Tokens[i]; o.MinUnit != pt.MinUnit && o.Contract != "" && tkNormHex(o.Contract) == c {
 						run.Violation(key+":contract-bound-twice", detail, "contract %s is bound to %s and %s", c, o.Symbol, pt.Symbol)
 					}
+				}
+			}
+			// a deployment concerns one token: every other token record stays what it was
+			for i := range pre.Tokens {
+				o := &pre.Tokens[i]
+				if o.MinUnit == msg.MinUnit {
+					continue
+				}
+				run.Eval(1)
+				if po := post.bySymbol(o.Symbol); po == nil || po.String() != o.String() {
+					got := "no record"
+					if po != nil {
+						got = po.String()
+					}
+					run.Violation(key+":another-token-record-changed", detail, "deployment for %s changed the record of token %s (min unit %s): now %s", msg.MinUnit, o.Symbol, o.MinUnit, got)
 				}
 			}
 			run.Class("deploy", tag.Var, "ok")
